@@ -245,7 +245,7 @@ def run(ctx):
 
             case = c16.heat(case, rng)
             flag = ["name", "aeflag"] if i % 2 else ["const", True]
-            case["asts"] = {n: c16.localize(b, flag) for n, b in case["asts"].items()}
+            case["asts"] = {n: c16.localize(b, flag, case["kind"] == "inherit") for n, b in case["asts"].items()}
             if "$expr" not in case["data"]:
                 case["data"]["aeflag"] = True
             else:
